@@ -52,6 +52,7 @@ type Explorer struct {
 	Unwind            int
 	StepCap           int64
 	MaxPaths          int
+	MaxFailures       int
 	PanicsAreFailures bool
 	QueryLog          io.Writer
 
@@ -98,7 +99,7 @@ func NewExplorer(p *Program, harness string) (*Explorer, error) {
 	if fn == nil {
 		return nil, fmt.Errorf("harness %s not found", harness)
 	}
-	x := &Explorer{P: p, Harness: harness, Fn: fn, Workers: 8, Unwind: 64, StepCap: 5_000_000, MaxPaths: 200000,
+	x := &Explorer{P: p, Harness: harness, Fn: fn, Workers: 8, Unwind: 64, StepCap: 5_000_000, MaxPaths: 200000, MaxFailures: 400,
 		Reached: map[string]*Witness{}, ReachedAll: map[string][]*Witness{}, ReachWanted: map[string]bool{}, AssertsProved: map[string]int{}, AssertsFailed: map[string]int{},
 		FnSteps: map[string]int64{}, Models: map[string]int{}, Assumptions: map[string]bool{}, KnownHits: map[string]int{}}
 	x.cond = sync.NewCond(&x.mu)
@@ -305,6 +306,12 @@ func (in *Interp) reportFailure(id, kind, msg, where string, extra []*smt.Term) 
 	x.mu.Lock()
 	x.Failures = append(x.Failures, f)
 	x.AssertsFailed[id]++
+	if x.MaxFailures > 0 && len(x.Failures) >= x.MaxFailures && !x.Stopped {
+		// enough counterexamples to replay: the rest of the space is left unexplored (and said so)
+		x.Stopped = true
+		x.Inconclusive = append(x.Inconclusive, fmt.Sprintf("exploration stopped after %d failing paths (%d paths explored)", len(x.Failures), len(x.Paths)))
+		x.cond.Broadcast()
+	}
 	x.mu.Unlock()
 	return true
 }
